@@ -29,6 +29,8 @@ def is_data_ty(ty):
 
 def run(ctx):
     F = ctx.F
+    from rules import deadrules as _dr
+    _dr.rule_parsed_fields_used(ctx, "R04.7", ("lef21::read::",), 100)
     fl = get_flow(F)
     ctx.rule("R04.1", "nothing parsed is dropped: the result of every data-producing parse step a parser routine performs flows into that routine's result")
     ctx.rule("R04.1b", "every (non-Unsupported) field of every LEF structure the parser builds is filled from the input somewhere, not only by its default")
